@@ -558,6 +558,111 @@ class ParamRename(ast.NodeTransformer):
         return node
 
 
+class ArgNames(ast.NodeTransformer):
+    """@partial(jit, static_argnums=(0, 2)) -> @partial(jit, static_argnames=("self", "trial")): the same static arguments,
+    named instead of numbered"""
+
+    def visit_FunctionDef(self, node):
+        self.generic_visit(node)
+        names = [x.arg for x in node.args.posonlyargs + node.args.args]
+        for d in node.decorator_list:
+            if isinstance(d, ast.Call) and _ref_name(d.func) == "partial" and d.args and _ref_name(d.args[0]) == "jit":
+                for kw in d.keywords:
+                    if kw.arg == "static_argnums":
+                        v = kw.value
+                        nums = [v.value] if isinstance(v, ast.Constant) else [e.value for e in v.elts] if isinstance(
+                            v, (ast.Tuple, ast.List)) and all(isinstance(e, ast.Constant) for e in v.elts) else None
+                        if nums is not None and all(isinstance(i, int) and 0 <= i < len(names) for i in nums):
+                            kw.arg = "static_argnames"
+                            kw.value = ast.Tuple(elts=[ast.Constant(value=names[i]) for i in nums], ctx=ast.Load())
+        return node
+
+
+class SpinConst(ast.NodeTransformer):
+    """x[0] -> x[UP__], x[1] -> x[DN__] for every literal subscript 0 / 1, with UP__, DN__ = 0, 1 at the top of the module"""
+
+    def visit_Subscript(self, node):
+        self.generic_visit(node)
+        if isinstance(node.slice, ast.Constant) and node.slice.value in (0, 1) and not isinstance(node.slice.value, bool):
+            node.slice = ast.copy_location(ast.Name(id="UP__" if node.slice.value == 0 else "DN__", ctx=ast.Load()), node.slice)
+        return node
+
+    def visit_Module(self, node):
+        self.generic_visit(node)
+        k = 0
+        while k < len(node.body) and (isinstance(node.body[k], (ast.Import, ast.ImportFrom)) or (
+                isinstance(node.body[k], ast.Expr) and isinstance(node.body[k].value, ast.Constant))):
+            k += 1
+        asg = ast.parse("UP__, DN__ = 0, 1").body[0]
+        node.body.insert(k, asg)
+        return node
+
+
+class LambdaToDef(ast.NodeTransformer):
+    """name = lambda a, b: expr   ->   def name(a, b): return expr   (a single-target assignment of a lambda, as a statement)"""
+
+    def _fix(self, stmts):
+        out = []
+        for st in stmts:
+            if isinstance(st, ast.Assign) and len(st.targets) == 1 and isinstance(st.targets[0], ast.Name) and \
+                    isinstance(st.value, ast.Lambda):
+                fn = ast.FunctionDef(name=st.targets[0].id, args=st.value.args, body=[ast.Return(value=st.value.body)],
+                                     decorator_list=[], returns=None, type_comment=None, type_params=[])
+                out.append(ast.copy_location(fn, st))
+            else:
+                out.append(st)
+        return out
+
+    def generic_visit(self, node):
+        super().generic_visit(node)
+        for fld in ("body", "orelse", "finalbody"):
+            v = getattr(node, fld, None)
+            if isinstance(v, list) and v and isinstance(v[0], ast.stmt):
+                setattr(node, fld, self._fix(v))
+        return node
+
+
+class SelfAlias(ast.NodeTransformer):
+    """in every method, each attribute self.X that the method only reads gets a local alias bound at the top of the body
+    (x__ = self.X) and is read through it"""
+
+    def visit_FunctionDef(self, node):
+        self.generic_visit(node)
+        a = node.args.posonlyargs + node.args.args
+        if not a or a[0].arg != "self" or node.name.startswith("__"):
+            return node
+        stored = {n.attr for n in ast.walk(node) if isinstance(n, ast.Attribute) and isinstance(n.value, ast.Name)
+                  and n.value.id == "self" and isinstance(n.ctx, (ast.Store, ast.Del))}
+        called = {n.func.attr for n in ast.walk(node) if isinstance(n, ast.Call) and isinstance(n.func, ast.Attribute)
+                  and isinstance(n.func.value, ast.Name) and n.func.value.id == "self"}
+        nested_self = any(isinstance(n, (ast.FunctionDef, ast.Lambda)) and n is not node and
+                          any(x.arg == "self" for x in n.args.posonlyargs + n.args.args) for n in ast.walk(node))
+        if nested_self:
+            return node
+        reads = []
+        for n in ast.walk(node):
+            if isinstance(n, ast.Attribute) and isinstance(n.value, ast.Name) and n.value.id == "self" and \
+                    isinstance(n.ctx, ast.Load) and n.attr not in stored and n.attr not in called and n.attr not in reads and \
+                    not n.attr.startswith("_"):
+                reads.append(n.attr)
+        if not reads:
+            return node
+
+        class R(ast.NodeTransformer):
+            def visit_Attribute(self, n):
+                self.generic_visit(n)
+                if isinstance(n.value, ast.Name) and n.value.id == "self" and isinstance(n.ctx, ast.Load) and n.attr in reads:
+                    return ast.copy_location(ast.Name(id=n.attr + "__", ctx=ast.Load()), n)
+                return n
+        k = 1 if node.body and isinstance(node.body[0], ast.Expr) and isinstance(node.body[0].value, ast.Constant) else 0
+        if len(node.body) == k + 1 and isinstance(node.body[k], (ast.Pass, ast.Raise)):
+            return node
+        new_body = [R().visit(st) for st in node.body[k:]]
+        binds = [ast.parse(f"{x}__ = self.{x}").body[0] for x in reads]
+        node.body = node.body[:k] + binds + new_body
+        return node
+
+
 _REORDER = None
 
 
@@ -657,7 +762,8 @@ def transform_module(src: str, kind: str) -> str:
     tree = ast.parse(src)
     tr = {"reorder": ReorderParams, "kwcalls": KwCalls, "commute": CommuteConst, "augassign": AugToAssign, "rettemp": ReturnTemp, "threeaddr": ThreeAddress,
           "swapbranches": SwapBranches, "guardclause": GuardClauses, "comp2loop": CompToLoop, "delegate": Delegate,
-          "paramrename": ParamRename}[kind]()
+          "paramrename": ParamRename, "argnames": ArgNames, "spinconst": SpinConst,
+          "lambda2def": LambdaToDef, "selfalias": SelfAlias}[kind]()
     tree = tr.visit(tree)
     ast.fix_missing_locations(tree)
     return ast.unparse(tree) + "\n"
@@ -672,7 +778,7 @@ def overlays(kind: str):
             new = ast.unparse(ast.parse(src)) + "\n"
         elif kind == "rename":
             new = rename_module(src)
-        elif kind in ("commute", "augassign", "rettemp", "threeaddr", "swapbranches", "guardclause", "comp2loop", "delegate", "kwcalls", "reorder", "paramrename"):
+        elif kind in ("commute", "augassign", "rettemp", "threeaddr", "swapbranches", "guardclause", "comp2loop", "delegate", "kwcalls", "reorder", "paramrename", "argnames", "spinconst", "lambda2def", "selfalias"):
             new = transform_module(src, kind)
         else:
             new = rename_module(src)
@@ -774,11 +880,11 @@ def mutants_under(kinds, pids):
 def main():
     if "--mutants" in sys.argv:
         sys.argv.remove("--mutants")
-        ALL_ = ("reformat", "rename", "commute", "augassign", "rettemp", "threeaddr", "swapbranches", "guardclause", "comp2loop", "delegate", "kwcalls", "reorder", "paramrename")
+        ALL_ = ("reformat", "rename", "commute", "augassign", "rettemp", "threeaddr", "swapbranches", "guardclause", "comp2loop", "delegate", "kwcalls", "reorder", "paramrename", "argnames", "spinconst", "lambda2def", "selfalias")
         kinds = [a for a in sys.argv[1:] if a in ALL_] or list(ALL_)
         pids = [a.upper() for a in sys.argv[1:] if a.upper().startswith("C") and a[1:].isdigit()] or [f"C{i:02d}" for i in range(1, 21)]
         return mutants_under(kinds, pids)
-    ALL = ("reformat", "rename", "commute", "augassign", "rettemp", "threeaddr", "swapbranches", "guardclause", "comp2loop", "delegate", "kwcalls", "reorder", "paramrename")
+    ALL = ("reformat", "rename", "commute", "augassign", "rettemp", "threeaddr", "swapbranches", "guardclause", "comp2loop", "delegate", "kwcalls", "reorder", "paramrename", "argnames", "spinconst", "lambda2def", "selfalias")
     kinds = [a for a in sys.argv[1:] if a in ALL] or list(ALL)
     pids = [a for a in sys.argv[1:] if a.upper().startswith("C") and a[1:].isdigit()] or [f"C{i:02d}" for i in range(1, 21)]
     rc = 0
